@@ -303,7 +303,7 @@ func main() {
 	r := run
 	r.SetRule("harness A: a case = (message lengths, frame policy, segmentation incl. every single cut offset of base streams, idle periods, caller buffer sizes); " +
 		"non-trivial = distinct (message length classes, segmentation, idle mode, buffer class, cut offset). harness B: pair-verify handovers on a real transport under " +
-		"three schedules (natural, late abort, late background read) each followed by three back-to-back encrypted requests")
+		"four schedules (natural, late abort, late background read, late activation) each followed by three back-to-back encrypted requests")
 	r.Assume("refctl framing follows the specification; the scripted connection never disconnects (timeouts only)")
 	rnd := r.Rand("c07a")
 
